@@ -564,7 +564,7 @@ func (d *V2) put(cmd *Cmd) (o Outcome) {
 }
 
 func (d *V2) get(cmd *Cmd) (o Outcome) {
-	in := &dynamodb.GetItemInput{TableName: aws.String(cmd.T), Key: itemToV2(cmd.Key)}
+	in := &dynamodb.GetItemInput{TableName: aws.String(cmd.T), Key: itemToV2(fullKey(cmd))}
 	d.keepIn(cmd.ID, "Key", in.Key)
 	out, err := d.cl.GetItem(bg, in)
 	d.classify(err, &o)
@@ -577,7 +577,7 @@ func (d *V2) get(cmd *Cmd) (o Outcome) {
 
 func (d *V2) del(cmd *Cmd) (o Outcome) {
 	p := d.parts(cmd, "")
-	in := &dynamodb.DeleteItemInput{TableName: aws.String(cmd.T), Key: itemToV2(cmd.Key), ConditionExpression: p.cond,
+	in := &dynamodb.DeleteItemInput{TableName: aws.String(cmd.T), Key: itemToV2(fullKey(cmd)), ConditionExpression: p.cond,
 		ExpressionAttributeNames: p.names, ExpressionAttributeValues: p.values, ReturnValues: types.ReturnValueAllOld}
 	if cmd.RetOnFail {
 		in.ReturnValuesOnConditionCheckFailure = types.ReturnValuesOnConditionCheckFailureAllOld
@@ -595,7 +595,7 @@ func (d *V2) del(cmd *Cmd) (o Outcome) {
 
 func (d *V2) update(cmd *Cmd) (o Outcome) {
 	p := d.parts(cmd, "")
-	in := &dynamodb.UpdateItemInput{TableName: aws.String(cmd.T), Key: itemToV2(cmd.Key), UpdateExpression: p.upd, ConditionExpression: p.cond,
+	in := &dynamodb.UpdateItemInput{TableName: aws.String(cmd.T), Key: itemToV2(fullKey(cmd)), UpdateExpression: p.upd, ConditionExpression: p.cond,
 		ExpressionAttributeNames: p.names, ExpressionAttributeValues: p.values, ReturnValues: types.ReturnValueAllNew}
 	if cmd.RetOnFail {
 		in.ReturnValuesOnConditionCheckFailure = types.ReturnValuesOnConditionCheckFailureAllOld
@@ -748,12 +748,12 @@ func (d *V2) bad(cmd *Cmd) (o Outcome) {
 		_, err = d.cl.PutItem(bg, &dynamodb.PutItemInput{TableName: aws.String(cmd.T), Item: itemToV2(cmd.Item), ConditionExpression: strp(cmd.RawExpr),
 			ExpressionAttributeNames: names, ExpressionAttributeValues: vals})
 	case "Get":
-		_, err = d.cl.GetItem(bg, &dynamodb.GetItemInput{TableName: aws.String(cmd.T), Key: itemToV2(cmd.Key), ExpressionAttributeNames: names})
+		_, err = d.cl.GetItem(bg, &dynamodb.GetItemInput{TableName: aws.String(cmd.T), Key: itemToV2(fullKey(cmd)), ExpressionAttributeNames: names})
 	case "Delete":
-		_, err = d.cl.DeleteItem(bg, &dynamodb.DeleteItemInput{TableName: aws.String(cmd.T), Key: itemToV2(cmd.Key), ConditionExpression: strp(cmd.RawExpr),
+		_, err = d.cl.DeleteItem(bg, &dynamodb.DeleteItemInput{TableName: aws.String(cmd.T), Key: itemToV2(fullKey(cmd)), ConditionExpression: strp(cmd.RawExpr),
 			ExpressionAttributeNames: names, ExpressionAttributeValues: vals})
 	case "Update":
-		in := &dynamodb.UpdateItemInput{TableName: aws.String(cmd.T), Key: itemToV2(cmd.Key), UpdateExpression: aws.String(cmd.RawExpr),
+		in := &dynamodb.UpdateItemInput{TableName: aws.String(cmd.T), Key: itemToV2(fullKey(cmd)), UpdateExpression: aws.String(cmd.RawExpr),
 			ExpressionAttributeNames: names, ExpressionAttributeValues: vals}
 		if cmd.Cond != nil { // well-formed update, broken condition in RawExpr
 			b := NewBinder()
